@@ -89,6 +89,46 @@ def sweep(tier, seed):
                     fails.append({'input': {'merge': [c1, c2], 'data_key': data_key}, 'observed': bad, 'expected': 'concatenation, operands untouched'})
                     if len(fails) >= 6:
                         return _res(n, fails, nmax)
+    # derived browsers (sub-browsers of filter_by, merged browsers, chains): their index describes THEIR content, position key included
+    for data_key in ('results', 'd'):
+        c1 = [{'a': i % 2, 'b': i % 3, data_key: [i]} for i in range(5)]
+        c2 = [{'a': 1 - i % 2, 'c': i, data_key: [10 + i]} for i in range(3)]
+        b1, b2 = Browser(copy.deepcopy(c1), data_key=data_key), Browser(copy.deepcopy(c2), data_key=data_key)
+        derived = {'filter_by(a=1)': lambda: b1.filter_by(a=1), 'filter_by(a=1).filter_by(b=1)': lambda: b1.filter_by(a=1).filter_by(b=1),
+                   'filter_by(include=b)': lambda: b1.filter_by(include=('b',)), 'merge': lambda: b1.merge(b2), 'merge.filter_by(a=0)': lambda: b1.merge(b2).filter_by(a=0),
+                   'filter_by(a=0).merge(filter_by(a=1))': lambda: b1.filter_by(a=0).merge(b1.filter_by(a=1))}
+        for label, mk in derived.items():
+            n += 1
+            try:
+                d = mk()
+            except Exception as e:      # noqa
+                fails.append({'input': {'derived': label, 'data_key': data_key}, 'observed': f'raised {e!r}', 'expected': 'a browser'})
+                continue
+            bad = _index_describes_content(d, data_key)
+            if not bad:
+                # queries by position on the derived browser
+                for pos in range(len(d.content) + 1):
+                    want = [_strip(x) for i, x in enumerate(d.content) if i == pos]
+                    got = [_strip(x) for x in d.filter_by(index=pos).content]
+                    if got != want:
+                        bad = f'filter_by(index={pos}) returned {len(got)} item(s) {got}, the item at that position is {want}'
+                        break
+                    try:
+                        one = d.select_by(index=pos)
+                        if not want or _strip(one) != want[0]:
+                            bad = f'select_by(index={pos}) returned {_strip(one)} instead of {want}'
+                            break
+                    except NoItemBrowserError:
+                        if want:
+                            bad = f'select_by(index={pos}) found nothing'
+                            break
+                    except TooManyItemsBrowserError:
+                        bad = f'select_by(index={pos}) found several items'
+                        break
+            if bad:
+                fails.append({'input': {'derived': label, 'data_key': data_key}, 'observed': bad, 'expected': 'the index of a derived browser describes its own content'})
+        if len(fails) >= 6:
+            return _res(n, fails, nmax)
     # larger browsers: order of the selection (a set of positions iterates in hash order beyond 8 entries) and repeated queries
     for data_key in ('results', 'd'):
         content = [{'seven': i % 7, 'three': i % 3, 'rank': i, data_key: [i]} for i in range(40)]
@@ -114,10 +154,28 @@ def sweep(tier, seed):
     return _res(n, fails, nmax)
 
 
+def _index_describes_content(br, data_key):
+    """the invariant IDX the contracts assume: index[k][v] is exactly the set of positions whose item holds k with value v (data key excluded, 'index' = position)"""
+    want = {}
+    for i, it in enumerate(br.content):
+        if it.get('index') != i:
+            return f"item {i} carries index {it.get('index')!r}"
+        for k, v in it.items():
+            if k != data_key:
+                want.setdefault(k, {}).setdefault(v, set()).add(i)
+    got = {k: {v: set(s) for v, s in vals.items() if s} for k, vals in br.index.items()}
+    got = {k: v for k, v in got.items() if v}
+    if got != want:
+        for k in set(got) | set(want):
+            if got.get(k) != want.get(k):
+                return f'index[{k!r}] is {got.get(k)} but the content gives {want.get(k)}'
+    return None
+
+
 def _res(n, fails, nmax):
     return {'name': 'browser-queries-native', 'evaluations': n, 'distinct': n, 'failures': fails[:8], 'exhaustive': True,
             'bound': f'all browsers with <= {nmax} items over keys {{a, b}} (absent / 0 / 1), unhashable data under data key in {{results, d}}, '
-                     'x 180 queries (values incl. absent ones, include, exclude) + merges of 1-item browsers and a filter chain + a 40-item browser with 31 '
+                     'x 180 queries (values incl. absent ones, include, exclude) + merges of 1-item browsers and a filter chain + 6 derived browsers (sub-browsers, merges, chains): index invariant and queries by position + a 40-item browser with 31 '
                      'queries asked twice (order of the selection, queries do not disturb each other); compared with a direct scan',
             'samples': [{'content': [{'a': 0, 'results': [1, 0]}], 'kwargs': {'a': 0}, 'include': ['b'], 'exclude': []}]}
 
